@@ -53,15 +53,15 @@ CHECKS = {
  "C13": C("membership", "DESIGN.md 3.5, 4 (C13)", "exhaustive action sequences on three real nodes, watch-channel value compared with the evaluated membership after every evaluation, with and without the extra predicate",
    "After every evaluation in every sequence the channel value must list exactly the live members satisfying the predicate with their current max versions, and a publication must have happened whenever the live set or a live member's version changed.", TRUST + " TTL-driven predicate flips without a version change (observation O-2) are outside the quantifier's step relation and are not raised."),
  "C14": C("pair", "DESIGN.md 3.2, 4 (C14), Appendix B", "exhaustive cross product sender copy x receiver copy x truncation point on real nodes against a reference admission table",
-   "For every pair of copies in the small scope the real sender's delta (from the receiver's real digest, under every truncating budget) is compared op by op with the admission table and delivered to the real receiver, whose resulting copy is compared with the table; resets exactly when both frontiers lie below the sender's watermark.", TRUST),
+   "For every pair of copies in the small scope the real sender's delta (from the receiver's real digest, under every truncating budget) is compared op by op with the admission table and delivered to the real receiver, whose resulting copy is compared with the table; resets exactly when both frontiers lie below the sender's watermark. A second sweep puts two members in the same delta (companion in 6 situations, both id orders, every equal-staleness order) and checks each member against the table plus strict progress.", TRUST),
  "C15": C("listeners", "DESIGN.md 3.7, 4 (C15), 5 (F-2)", "exhaustive enumeration of keys / prefix sets over an alphabet with multi-byte characters x life cycles x write kinds on a real node",
    "For all strings up to length 3 over {a, b, é, 😀}: every prefix set of size <= 2 x key, every prefix x key x life cycle x write kind (local and replicated), and every 8-subset of near-miss prefixes; the multiset of callbacks must equal the reference.", TRUST),
  "C16": C("isolation", "DESIGN.md 3.7, 4 (C16)", "explicit-state BFS over two clusters of real nodes with different ids, message granularity with duplication",
    "In every explored state no node knows a member of the other cluster; every foreign SYN is answered by exactly BadCluster and leaves the receiver bit-identical (heartbeat + 1); BadCluster replies change nothing.", TRUST + " SYN-ACK/ACK carry no cluster id (observation O-3); one address serving both clusters over time is outside the quantifier."),
  "C17": C("select", "DESIGN.md 3.7, 4 (C17)", "exhaustive role multisets of up to 6 addresses x lazily enumerated generator scripts through the real selection function",
-   "Every configuration of the subset structure and every script of extreme/mid generator outputs for the draws actually consumed; bounds, pools, forced-seed and forced-dead clauses, no panic.", TRUST + " The address picked from a HashSet depends on iteration order; the oracle is a membership/cardinality predicate invariant under that order."),
+   "Every configuration of the subset structure and every script of extreme/mid generator outputs for the draws actually consumed; bounds, pools, forced-seed and forced-dead clauses, no panic. On the real server loop: every script up to the length bound must contact the seed in every round, and for every small membership (ready / not-ready / dead peers, seed placement, with and without a liveness predicate) the SYN destinations of a round must split into <= 3 pool peers + <= 1 dead + <= 1 seed.", TRUST + " The address picked from a HashSet depends on iteration order; the oracle is a membership/cardinality predicate invariant under that order."),
  "C18": C("catchup", "DESIGN.md 3.7, 4 (C18), 5 (F-4)", "exhaustive (existing copy x supplied state x position relative to a real handshake) calls of the public entry point on a real node",
-   "Every call of the scope must not panic, must not lower the frontier, must leave the copy unchanged or replace its key set (newer shared keys win), must not re-create a garbage collected member nor make a member live.", TRUST),
+   "Every call of the scope must not panic, must not lower the frontier, must leave the copy unchanged or replace its key set (newer shared keys win), must not re-create a garbage collected member nor make a member live. Sequences of calls, clock advances, evaluations and heartbeats are compared with a call-free twin run: without a heartbeat event the member is live with the calls only if it is live without them.", TRUST),
  "C19": C("server", "DESIGN.md 3.8, 4 (C19)", "exhaustive event/fault scripts against the real gossip loop over a scripted transport on a paused current-thread runtime, closing probes after every script",
    "Every script up to the length bound over send ok/error/blocked, valid and foreign messages, fatal receive error, gossip interval, user lock, user command, shutdown and an injected panic; after each script the loop must be alive and responsive, or its termination reported; locks always granted; shutdown always completes.", TRUST + " At most one select! branch is made ready at a time (the loop re-creates all futures each iteration and they are cancel-safe); the real UDP transport is not part of the deciding step."),
  "C20": C("cluster+pair", "DESIGN.md 3.1, 3.2, 4 (C20)", "explicit-state BFS on real nodes with a counting callback + exhaustive (copy, delta) pairs + multi-member messages",
